@@ -142,11 +142,23 @@ def decReplyNextTx (extra : Bool) (m : Mode) (t : Cbor) : Option Val :=
         | _ => none
   | _ => none
 
+/-- leios-fetch `MsgBlockTxs.UnmarshalCBOR`: two wire forms chosen by the item count,
+    `[3, txs]` and `[3, point, bitmaps, txs]`; rendered with all four exported fields -/
+def decBlockTxs (m : Mode) (t : Cbor) : Option Val :=
+  match structItems m t with
+  | some [_, _] =>
+    (match decVal m (.struct [.uint 8, .list .raw]) t with
+     | some (.s [ty, txs]) => some (.s [ty, .s [.u 0, .h []], .m [], txs])
+     | _ => none)
+  | some [_, _, _, _] => decVal m (.struct [.uint 8, .point, .map (.uint 16) (.uint 64), .list .raw]) t
+  | _ => none
+
 /-- messages modelled here instead of by a regenerated shape -/
 def special (name : String) : Option (Mode → Cbor → Ans) :=
   if name == "RollForwardNtC" then some (fun m t => .ofOption (decRollForwardNtC m t))
   else if name == "RollForwardNtN" then some (fun m t => .ofOption (decRollForwardNtN m t))
   else if name == "SubmitTx" then some decSubmitTx
+  else if name == "BlockTxs" then some (fun m t => .ofOption (decBlockTxs m t))
   else if name == "ReplyNextTx" then some (fun m t => .ofOption (decReplyNextTx false m t))
   else none
 
